@@ -27,7 +27,11 @@ MinOf(a, b) == IF a <= b THEN a ELSE b
 MaxOf(a, b) == IF a >= b THEN a ELSE b
 
 RECURSIVE BorderRec(_)
-BorderRec(n) == IF n = 0 THEN SzOf(UNIT) ELSE SzAdd(BorderRec(n - 1), BorderRec(n - 1))
+(* (the set construction binds b to a VALUE: TLC does not cache lazily evaluated LET
+   definitions and operator arguments outside actions, and a double reference to
+   BorderRec(n - 1) would make this exponential) *)
+BorderRec(n) == IF n = 0 THEN SzOf(UNIT)
+                ELSE CHOOSE r \in {SzAdd(b, b) : b \in {BorderRec(n - 1)}} : TRUE
 Borders == [n \in 0..(NUM - 1) |-> BorderRec(n)]      \* Borders[n] = UNIT * 2^n
 MaxSize == Borders[NUM - 1]                           \* 192 GiB
 (* smallest n with UNIT * 2^n >= size; NUM-1 beyond the last border *)
